@@ -174,6 +174,14 @@ class OracleDRO:
     def sum(self, e, axis=None):
         return np.sum(e, axis=axis)
 
+    def plus(self, l, r):
+        """l + r where one operand is E(expr of STATIC decisions only) and the other contains random variables written
+        OUTSIDE E(): the expectation of a static expression is the expression, the random part stays robust (the
+        constraint must hold for every realisation)."""
+        le_ = l.e if isinstance(l, OExp) else l
+        re_ = r.e if isinstance(r, OExp) else r
+        return le_ + re_
+
     def le(self, l, r):
         if isinstance(l, OExp) or isinstance(r, OExp):
             le_ = l.e if isinstance(l, OExp) else l
@@ -329,6 +337,9 @@ class RealDRO:
 
     def sum(self, e, axis=None):
         return e.sum(axis=axis) if axis is not None else e.sum()
+
+    def plus(self, l, r):
+        return l + r
 
     def le(self, l, r):
         return l <= r
